@@ -16,8 +16,8 @@ RULE = ("one case = (method, dtype, sign of h, state shape, program seed, call h
         "non-trivial = >=1 accepted step; distinct by (method,dtype,sign,shape,seed,history)")
 ASSUMPTIONS = ["explicit threshold 64*eps*(1+sum|a_ij|)*(1+max|k|)*(1+L|h|); implicit threshold 4*desired_tol + rounding, "
                "desired_tol recomputed from the inputs exactly as the library's step() does"]
-FLOORS = {"quick": {"accepted_steps": 300, "stage_equations_checked": 1500, "newton_failure_then_retry": 1, "second_calls": 60},
-          "thorough": {"accepted_steps": 3000, "stage_equations_checked": 15000, "newton_failure_then_retry": 5, "second_calls": 600}}
+FLOORS = {"quick": {"accepted_steps": 300, "stage_equations_checked": 1500, "newton_failure_then_retry": 1, "second_calls": 60, "insitu_steps": 300},
+          "thorough": {"accepted_steps": 3000, "stage_equations_checked": 15000, "newton_failure_then_retry": 5, "second_calls": 600, "insitu_steps": 3000}}
 K_EXPL = 64.0
 K_IMPL = 4.0
 K_SPLIT = 128.0
@@ -55,6 +55,15 @@ def gen_cases(tier, seed):
             name = "RadauIIA5"
         cases.append(dict(method=name, dtype="float64", sign=1, h=float(10 ** rng.uniform(0.8, 2.0)), t0=0.0, shape=[3],
                           pseed=int(rng.integers(1 << 30)), history=[], hard=True, cost=20))
+    # in situ: the same oracle attached (through a callback) to every step of real OdeSystem runs, across rejected steps, FSAL reuse,
+    # successive integrate() calls and a change of the constants between two calls
+    sysm = [n for n, i in M.items() if not i["splitting"]]
+    for r in range(24 if tier == "quick" else 240):
+        name = sysm[int(rng.integers(len(sysm)))]
+        if M[name]["stages"] >= 10 and not M[name]["explicit"]:
+            name = "RadauIIA5"
+        cases.append(dict(kind="system", method=name, dtype="float64", sign=int(rng.choice([-1, 1])), h=0.0, t0=float(rng.uniform(-3, 3)), shape=[3],
+                          pseed=int(rng.integers(1 << 30)), history=[], big_dt=bool(rng.random() < 0.4), cost=6 if M[name]["explicit"] else 40))
     return cases
 
 
@@ -91,7 +100,90 @@ def _ref_model_splitting(info, prob, t, y, h, mask):
     return yl - np.asarray(y, dtype=np.longdouble), tl - np.longdouble(t)
 
 
+def _run_system(spec):
+    """stage equations of EVERY accepted step of an OdeSystem run, observed from a callback on the live integrator."""
+    from vf import sysrun
+    M = util.methods()
+    info = M[spec["method"]]
+    d = spec["sign"]
+    dt = np.dtype("float64")
+    eps = float(np.finfo(dt).eps)
+    prob = Manufactured(3, spec["pseed"], direction=d)
+    t0 = spec["t0"]
+    L = 2.0
+    tf = t0 + d * L
+    rec = util.Rec(sig="system|%s|%d|%s|%d" % (spec["method"], d, spec["big_dt"], spec["pseed"] % 997))
+    feats = {"method": spec["method"], "family": info["family"], "dtype": "float64", "sign": d, "kind": "system"}
+    consts = {"gain": 1.0}
+
+    def f(t, y, gain=1.0, **kw):
+        return prob.rhs(t, y) * gain
+
+    class P:     # reference program with the gain in force at the time of the step
+        pass
+    Lip = prob.lipschitz()
+    wmax = float(max(np.max(prob.w), np.max(prob.v)))
+    rtol, atol = 1e-6, 1e-8
+    system = sysrun.make_system(f, prob.ystar(t0).astype(dt), t0, tf, (L / 16.0) if not spec["big_dt"] else 4 * L, info["cls"], rtol=rtol, atol=atol, constants=consts)
+    state = {"bad": 0}
+
+    def cb(s):
+        intg = s.integrator
+        gain = s.constants["gain"]
+        k = np.asarray(intg.stage_values)
+        tl_ = np.asarray(intg.initial_time, dtype=np.longdouble)
+        y = np.asarray(intg.initial_state)
+        dTl = np.asarray(intg.dTime, dtype=np.longdouble)
+        if float(tl_ + dTl) != float(s.t[-1]) and abs(float(tl_ + dTl) - float(s.t[-1])) > 64 * eps * max(1.0, abs(float(s.t[-1]))):
+            return    # terminal landing etc.: the integrator's last call is not the last recorded row
+        prob_g = type("G", (), {"rhs": staticmethod(lambda t, yy: prob.rhs(t, yy) * np.longdouble(gain))})
+        res, dref = _ref_model_rk(info, prob_g, tl_, y, dTl, k, dt)
+        A = np.asarray(info["cls"].tableau_intermediate)
+        kmax = float(np.max(np.abs(k)))
+        ymax = float(np.max(np.abs(y)))
+        dTf = float(dTl)
+        rec.bump("accepted_steps")
+        rec.bump("insitu_steps")
+        rec.bump("stage_equations_checked", len(res))
+        if info["explicit"]:
+            for i, r in enumerate(res):
+                unit = K_EXPL * eps * ((1 + wmax * (abs(float(tl_)) + abs(dTf))) * (1 + kmax) + abs(gain) * Lip * (ymax + abs(dTf) * float(np.sum(np.abs(A[i, 1:]))) * kmax))
+                e = float(np.max(np.abs(r)))
+                rec.worst("insitu_explicit_stage_defect_over_unit", e / unit)
+                if e > unit and state["bad"] < 2:
+                    state["bad"] += 1
+                    rec.violate("stage_equation", "stage_slope_differs_from_f_at_stage_argument", dict(feats, stage=i), err=e, unit=unit, row=len(s), gain=gain)
+                    break
+        else:
+            desired = 0.5 * abs(atol + float(np.max(np.abs(rtol * y))))
+            nrm = float(np.sqrt(sum(float(np.sum(r.astype(np.longdouble) ** 2)) for r in res)))
+            unit = K_IMPL * desired + K_EXPL * eps * np.sqrt(3 * len(res)) * ((1 + wmax * (abs(float(tl_)) + abs(dTf))) * (1 + kmax) + Lip * (ymax + abs(dTf) * 4 * kmax))
+            rec.worst("insitu_implicit_residual_over_unit", nrm / unit)
+            if nrm > unit and state["bad"] < 2:
+                state["bad"] += 1
+                rec.violate("implicit_stage_residual", "accepted_step_with_unsolved_stage_equations", feats, residual=nrm, unit=unit, row=len(s))
+        unitd = K_EXPL * eps * (1 + kmax) * abs(dTf) * (1 + float(np.sum(np.abs(info["cls"].tableau_final[0, 1:]))))
+        ed = float(np.max(np.abs(np.asarray(intg.dState, dtype=np.longdouble) - dref)))
+        if ed > unitd and state["bad"] < 2:
+            state["bad"] += 1
+            rec.violate("increment", "dState_differs_from_h_sum_b_k", feats, err=ed, unit=unitd, row=len(s))
+        # the recorded row is previous row + increment
+        if len(s) >= 2 and not np.array_equal(np.asarray(s.y[-1]), np.asarray(s.y[-2]) + np.asarray(intg.dState)):
+            if abs(float(tl_) - float(s.t[-2])) == 0.0:
+                rec.violate("recorded_row", "recorded_state_is_not_previous_state_plus_increment", feats, row=len(s))
+    seg = sysrun.call_integrate(system, t=t0 + 0.5 * (tf - t0), callback=cb, max_steps=20000)
+    # a parameter of the right-hand side changes between two calls: nothing cached from the old program may be used
+    system.constants["gain"] = 1.7
+    seg2 = sysrun.call_integrate(system, callback=cb, max_steps=20000)
+    rec.bump("second_calls")
+    rec.nontrivial = rec.counters.get("insitu_steps", 0) >= 3
+    rec.sample = {"spec": {k: spec[k] for k in ("kind", "method", "sign", "t0", "big_dt")}, "rows": len(system), "raised": [str(seg["raised"]), str(seg2["raised"])]}
+    return rec.out()
+
+
 def run_case(spec):
+    if spec.get("kind") == "system":
+        return _run_system(spec)
     import desolver as de
     M = util.methods()
     info = M[spec["method"]]
